@@ -65,6 +65,8 @@ def replay(prop, res, f, repo, index, outbase, gen, sp, max_n=3, timeout=240):
     m_edges = re.match(r'^(L[DU]G_\w+?)_Edges(_EIt)?__(\w+)$', target)
     if m_edges:
         return replay_edges(prop, res, f, repo, index, outbase, gen, sp, m_edges, max_n, timeout)
+    if target.split('@')[0] in ('swapBytes', '_isSystemBigEndian', 'writeBinaryValue', 'readBinaryValue'):
+        return replay_codec(prop, res, f, repo, outbase, gen, timeout)
     if target.startswith('loadBinaryEdgeList_1_NoLabel_'):
         return replay_loader(prop, res, f, repo, index, outbase, gen, sp, target, timeout)
     if target.startswith('getSubgraph_2_'):
@@ -203,6 +205,64 @@ int main() {
     return found, header + '// result: %s\n/* output of the replay on the real code:\n%s\n*/\n%s' % (
         'FAILING INPUT FOUND (exit %d)' % code if found else 'no failing input among all graphs with <= %d vertices' % max_n,
         '\n'.join(out.strip().split('\n')[-20:]), src)
+
+
+def replay_codec(prop, res, f, repo, outbase, gen, timeout):
+    """the byte-order leaf functions on THIS host: _isSystemBigEndian() against the compiler's __BYTE_ORDER__,
+    swapBytes against a shift-based byte swap, writeBinaryValue's bytes against the little-endian encoding,
+    readBinaryValue of those bytes against the value (clauses endian.ok, swap.ok, wr.ok, rd.ok)"""
+    tmpf = outbase + '.codec.bin'
+    src = '''#include "BaseGraph/fileio.hpp"
+#include <cstdio>
+#include <fstream>
+int main() {
+  int rc = 0;
+  const bool host_big = __BYTE_ORDER__ == __ORDER_BIG_ENDIAN__;
+  if (BaseGraph::io::_isSystemBigEndian() != host_big) { printf("CLAUSE FALSE ON THE REAL CODE: endian.ok: _isSystemBigEndian() returns %d on a %s-endian host\\n", (int)BaseGraph::io::_isSystemBigEndian(), host_big ? "big" : "little"); rc = 1; }
+  const unsigned vals[] = {0u, 1u, 258u, 0x01020304u, 0xfffefdfcu, 0x80000000u};
+  for (unsigned v : vals) {
+    unsigned s = v; BaseGraph::io::swapBytes(s);
+    unsigned want = ((v & 0xffu) << 24) | ((v & 0xff00u) << 8) | ((v >> 8) & 0xff00u) | ((v >> 24) & 0xffu);
+    if (s != want) { printf("CLAUSE FALSE ON THE REAL CODE: swap.ok: swapBytes(0x%08x) = 0x%08x\\n", v, s); rc = 1; }
+    { std::ofstream o("%s", std::ios::binary); BaseGraph::io::writeBinaryValue(o, v); }
+    unsigned char b[8] = {0}; long n = 0;
+    { std::ifstream i("%s", std::ios::binary); i.read((char *)b, 8); n = i.gcount(); }
+    if (n != 4 || b[0] != (v & 0xff) || b[1] != ((v >> 8) & 0xff) || b[2] != ((v >> 16) & 0xff) || b[3] != ((v >> 24) & 0xff)) {
+      printf("CLAUSE FALSE ON THE REAL CODE: wr.ok: writeBinaryValue(0x%08x) wrote %ld bytes %02x %02x %02x %02x, little-endian is %02x %02x %02x %02x\\n",
+             v, n, b[0], b[1], b[2], b[3], v & 0xff, (v >> 8) & 0xff, (v >> 16) & 0xff, (v >> 24) & 0xff); rc = 1; }
+    { std::ofstream o("%s", std::ios::binary); for (int k = 0; k < 4; ++k) o.put((char)((v >> (8 * k)) & 0xff)); }
+    unsigned r = 0xdeadbeef; bool ok;
+    { std::ifstream i("%s", std::ios::binary); ok = (bool)BaseGraph::io::readBinaryValue(i, r); }
+    if (!ok || r != v) { printf("CLAUSE FALSE ON THE REAL CODE: rd.ok: readBinaryValue of the little-endian bytes of 0x%08x gave 0x%08x (stream ok=%d)\\n", v, r, (int)ok); rc = 1; }
+    { std::ofstream o("%s", std::ios::binary); o.put(1); o.put(2); }
+    { std::ifstream i("%s", std::ios::binary); unsigned t = 7; if ((bool)BaseGraph::io::readBinaryValue(i, t)) { printf("CLAUSE FALSE ON THE REAL CODE: rd.ok: a 2-byte file satisfied a 4-byte read\\n"); rc = 1; } }
+  }
+  std::remove("%s");
+  printf("%zu values replayed on this %s-endian host\\n", sizeof vals / sizeof *vals, host_big ? "big" : "little");
+  return rc;
+}
+'''.replace('%s"', tmpf + '"')
+    cpp, exe = outbase + '.cpp', outbase + '.bin'
+    open(cpp, 'w').write(src)
+    cmd = ['g++', '-std=c++14', '-O1', '-w', '-I', os.path.join(repo, 'include'), cpp, '-o', exe]
+    r = subprocess.run(cmd, stdout=subprocess.PIPE, stderr=subprocess.STDOUT, text=True)
+    header = '// native replay of %s\n// build: %s\n' % (f.get('key'), ' '.join(cmd))
+    if r.returncode != 0:
+        return False, header + '// replay did not compile:\n' + ''.join('// ' + l + '\n' for l in r.stdout.split('\n')[-20:]) + src
+    try:
+        r = subprocess.run([exe], stdout=subprocess.PIPE, stderr=subprocess.STDOUT, text=True, timeout=timeout)
+        out, code = r.stdout, r.returncode
+    except subprocess.TimeoutExpired:
+        out, code = 'TIMEOUT', 0
+    for pth in (exe, cpp, tmpf):
+        try:
+            os.remove(pth)
+        except OSError:
+            pass
+    found = code != 0
+    return found, header + '// result: %s\n/* output of the replay on the real code:\n%s\n*/\n%s' % (
+        'FAILING INPUT FOUND (exit %d)' % code if found else 'no failing input on this host (the other byte order is only reachable in the verifier)',
+        '\n'.join(out.strip().split('\n')[-20:]).replace('*/', '* /'), src)
 
 
 def replay_loader(prop, res, f, repo, index, outbase, gen, sp, target, timeout):
